@@ -21,7 +21,7 @@ EDGE = [
     "#define F(a,a) a\nF(1,2)\n", "#define F(...) __VA_OPT__(\nF()\n", "#define F(x) #\nF(1)\n", "#define F(x) x ##\nF(1)\n", "#define F(x) ## x\nF(1)\n", "#define A B\n#define B A\nint A;\n#if A\n#endif\n",
     "#define A B\n#define B C\n#define C A\n#if A\n#endif\n#define D A\n", "#define f(x) f(x)+1\nint a = f(1);\n#if f(1)\n#endif\n", "#define g(x) h(x)\n#define h(x) g(x)\nint a = g(1);\n#if g(1)\n#endif\n",
     "#define F(x) x\nF(\n", "#define F(x) x\nF(1,2,3)\n", "#define F(x,y) x y\nF(1)\n", "#define F(x) x\nint a = F((,));\n", "#define S(x) #x\nconst char *s = S(\"a\\\"b\");\n", "#define S(x) #x\nconst char *s = S(');\n",
-    "#include\n", "#include <\n", "#include \"\n", "#include \"\"\n", "#include <>\n", "#include MACRO\n", "#define M <x\n#include M\n", "#include \"self_including_file.h\"\n",
+    "#include\"self_including_file.h\" ", "#include \"self_including_file.h\"", "#include\n", "#include <\n", "#include \"\n", "#include \"\"\n", "#include <>\n", "#include MACRO\n", "#define M <x\n#include M\n", "#include \"self_including_file.h\"\n",
     "#pragma\n", "#pragma push_macro(\n", "#pragma pop_macro(\"x\")\n", "#pragma push_macro(\"x\")\n#pragma pop_macro(\"x\")\n#pragma pop_macro(\"x\")\n", "#line\n", "#line 999999999999999999999\n", "#error\n", "#unknown\n", "#\n", "# 1 \"f\"\n",
     "const char *s = R\"(\")\";\n", "const char *s = R\"(", "const char *s = R\"", "const char *s = R\"abcdefghijklmnopqrstuvwxyz(x)abcdefghijklmnopqrstuvwxyz\";\n", "const char *s = \"abc", "char c = '", "char c = '\\", "char c = '\\x';\n",
     "char c = '\\777777';\n", "const char *s = \"\\U99999999\";\n", "const char *s = \"\\u12\";\n", "int x = 1'';\n", "int x = 0x;\n", "int x = 0b;\n", "int x = 1e;\n", "int x = 1e+;\n", "int x = 0x1p;\n", "int x = 1..2;\n",
